@@ -337,17 +337,24 @@ func buildEntity(
 		units := map[uint64][]byte{}
 		var order []uint64
 		for _, w := range e.Writes {
-			if err := s.Write(w.Addr, w.Data); err != nil {
+			if w.Read {
+				if _, err := s.Read(w.Addr, uint64(len(w.Data))); err != nil {
+					panic(fmt.Sprintf("storage read: %v", err))
+				}
+			} else if err := s.Write(w.Addr, w.Data); err != nil {
 				panic(fmt.Sprintf("storage write: %v", err))
 			}
 			for i, by := range w.Data {
 				a := w.Addr + uint64(i)
 				base := a / e.Unit * e.Unit
 				if _, ok := units[base]; !ok {
+					// touched for the first time (by a read or a write): allocated, all zeros
 					units[base] = make([]byte, e.Unit)
 					order = append(order, base)
 				}
-				units[base][a-base] = by
+				if !w.Read {
+					units[base][a-base] = by
+				}
 			}
 		}
 		us := make([]string, len(order))
